@@ -64,10 +64,24 @@ def _cmp_graph(snap, res, want: RG, op, args):
         kernel.violation(PROP, op, f"{op} returned the receiver itself instead of a new graph")
 
 
-def _as_set(vertices):
+class _OneShot(Exception):
+    pass
+
+
+def _as_set(vertices, op=None):
+    """The vertex argument as a set.  A one-shot iterator has been consumed by the call itself: the driver's own
+    record of the argument is used if there is one (LOG.case['S']), otherwise the call is counted, not judged."""
     from y0.dsl import Variable
 
-    return {vertices} if isinstance(vertices, Variable) else set(vertices)
+    if isinstance(vertices, Variable):
+        return {vertices}
+    if isinstance(vertices, (set, frozenset, list, tuple, dict)) or hasattr(vertices, "__len__"):
+        return set(vertices)
+    case = kernel.LOG.case
+    if isinstance(case, dict) and isinstance(case.get("S"), list) and op is not None \
+            and str(case.get("op", "")).split(":")[-1] == op:
+        return {Variable(n) for n in case["S"]}
+    raise _OneShot()
 
 
 def _in_domain(ref: RG, S) -> bool:
@@ -80,7 +94,11 @@ def _in_domain(ref: RG, S) -> bool:
 def _mk_surgery(op, refop):
     def post(snap, res, self, vertices, *a, **k):
         _receiver_unchanged(snap, self, op)
-        S = _as_set(vertices)
+        try:
+            S = _as_set(vertices, op)
+        except _OneShot:
+            kernel.count("C14:one-shot-iterable-argument-not-judged")
+            return
         if not _in_domain(snap["ref"], S):
             return
         _cmp_graph(snap, res, refop(snap["ref"], S), op, sorted(map(str, S)))
@@ -91,7 +109,11 @@ def _mk_surgery(op, refop):
 def _mk_setop(op, refop):
     def post(snap, res, self, vertices, *a, **k):
         _receiver_unchanged(snap, self, op)
-        S = _as_set(vertices)
+        try:
+            S = _as_set(vertices, op)
+        except _OneShot:
+            kernel.count("C14:one-shot-iterable-argument-not-judged")
+            return
         if not _in_domain(snap["ref"], S):
             return
         want = refop(snap["ref"], S)
@@ -150,7 +172,11 @@ def _post_topological_sort(snap, res, self):
 def _post_pre(snap, res, self, nodes, topological_sort_order=None):
     _receiver_unchanged(snap, self, "pre")
     ref = snap["ref"]
-    S = _as_set(nodes)
+    try:
+        S = _as_set(nodes, "pre")
+    except _OneShot:
+        kernel.count("C14:one-shot-iterable-argument-not-judged")
+        return
     res = list(res)
     if topological_sort_order:
         order = list(topological_sort_order)
@@ -200,7 +226,11 @@ def _pre_paths(graph, sources, targets):
 
 def _post_paths(snap, res, graph, sources, targets):
     _receiver_unchanged(snap, graph, "get_nodes_in_directed_paths")
-    S, T = _as_set(sources), _as_set(targets)
+    try:
+        S, T = _as_set(sources), _as_set(targets)
+    except _OneShot:
+        kernel.count("C14:one-shot-iterable-argument-not-judged")
+        return
     ref = snap["ref"]
     if (S & T) or not (S | T) <= set(ref.V):
         kernel.count("C14:out-of-domain-argument")
